@@ -37,13 +37,22 @@ CONSTANTS Rooms,     \* rooms the client calls on
           MaxFlight, \* bound on unprocessed stanzas (MC only)
           Alphabet,  \* stanzas the room may send (MC only)
           Splits,    \* whether the room may deliver a stanza in two pieces (MC only)
+          Aux,       \* the fire-and-forget calls the application may make on a channel (MC only): subset of AuxKinds
           Dev        \* named deviations (re-introduced defects), {} = the property
 
 Me == "me"
 None == "-"
 CallSet == {CallIds[i] : i \in 1..Len(CallIds)}
 Idx(c) == CHOOSE i \in 1..Len(CallIds) : CallIds[i] = c
-JoinKinds == {"join", "rejoin"}
+JoinKinds == {"join", "rejoin", "renick"}
+(* Channel.Subject / Channel.Invite: they send one message and wait for nothing; the application may *)
+(* make them at any time on a channel it holds, also while a Leave of that channel is pending        *)
+AuxKinds == {"subject", "invite"}
+(* A member r of Rooms names a CHANNEL = the occupant address its first join asked for.  "r1b" is a  *)
+(* second channel in room r1 under another nickname (Client.Join for r1/me2 while the channel for     *)
+(* r1/me exists): to each of them the presences of the other one are those of another occupant.      *)
+RoomOf(r) == IF r = "r1b" THEN "r1" ELSE r
+NickOf(r) == IF r = "r1b" THEN "me2" ELSE Me
 (* the stanza error condition the scripted room uses when it refuses call c *)
 CondOf == [c \in {"c1", "c2", "c3", "c4", "c5", "c6"} |->
              CASE c = "c1" -> "conflict" [] c = "c2" -> "forbidden" [] c = "c3" -> "not-allowed"
@@ -61,12 +70,14 @@ VARIABLES
   inflight,                \* stanzas sent by the room and not yet processed by the serve loop
   cbs, ups,                \* invitations handed to the callbacks (a sequence) / user-presence callbacks since the last processed stanza
   viol, nenv,
+  nk,                      \* nicknames: which occupant address of its room a channel holds / has asked for (see NICKNAMES below)
   \* mechanism
   managed, jbuf, depart, jflag, pc, sent,
-  hold                     \* the call whose sender goroutine has been handed the error reply and has not closed it yet
+  hold,                    \* the call whose sender goroutine has been handed the error reply and has not closed it yet
+  mk                       \* per channel: the nicknames registered for it in the table (reg) and the address it holds (caddr)
 
-ovars == <<kind, room, st, res, cancelled, wire, cand, owed, dirty, memAt, mem, has, inflight, cbs, ups, viol, nenv>>
-mvars == <<managed, jbuf, depart, jflag, pc, sent, hold>>
+ovars == <<kind, room, st, res, cancelled, wire, cand, owed, dirty, memAt, mem, has, inflight, cbs, ups, viol, nenv, nk>>
+mvars == <<managed, jbuf, depart, jflag, pc, sent, hold, mk>>
 vars == <<ovars, mvars>>
 
 OInit ==
@@ -76,9 +87,12 @@ OInit ==
   /\ memAt = [c \in CallSet |-> None]
   /\ mem = [r \in Rooms |-> "out"] /\ has = {}
   /\ inflight = <<>> /\ cbs = <<>> /\ ups = 0 /\ viol = {} /\ nenv = 0
+  /\ nk = [cur |-> [r \in Rooms |-> NickOf(r)], ghost |-> [r \in Rooms |-> None], amb |-> {}, ren |-> {},
+           want |-> [c \in CallSet |-> None], seen |-> [c \in CallSet |-> {}]]
 MInit ==
   /\ managed = {} /\ jbuf = [r \in Rooms |-> <<>>] /\ depart = [r \in Rooms |-> 0]
   /\ jflag = [r \in Rooms |-> FALSE] /\ pc = [c \in CallSet |-> "idle"] /\ sent = {} /\ hold = None
+  /\ mk = [reg |-> [r \in Rooms |-> {NickOf(r)}], caddr |-> [r \in Rooms |-> NickOf(r)]]
 Init == OInit /\ MInit
 
 (* SHAPES of an error reply (s.shape; "-" for every other stanza).  The room answers a request with  *)
@@ -98,24 +112,51 @@ MalformedShapes == {"bare", "noerr", "wrongns", "empty", "badby", "unktype", "te
 Malformed(s) == s.ty = "er" /\ s.shape \notin WellFormedShapes
 AnyErr == "any-error"      \* member of cand[c]: a malformed error reply to c is on its way, every error outcome is acceptable
 
+(* NICKNAMES.  A "renick" call = Channel.Join with the Nick option on a channel that has an occupant     *)
+(* address: it asks the room for the OTHER nickname (Other).  The room may grant it (self-presence of   *)
+(* the new address, preceded or not by the unavailable presence of the old one), refuse it (error) or   *)
+(* say nothing; until the room has granted it the occupant HOLDS THE OLD ADDRESS, whose presences are   *)
+(* the ones membership follows; the presences of the address asked for and not granted are another     *)
+(* occupant's (whoever has that nickname).  nk.cur[r]: the nickname of the address channel r holds (or *)
+(* will ask for); nk.want[c]: the nickname a renick call c asks for; nk.seen[c]: which of the two       *)
+(* addresses the room has sent a self-presence for while c was pending; nk.ghost[r]: an address the     *)
+(* room has never vacated although it granted another one (its unavailable presence leaves membership  *)
+(* undetermined); nk.amb: channels for which the room confirmed BOTH addresses during one call (nothing *)
+(* is required of them any more); nk.ren: channels that ever had a renick call (Me() is not judged).    *)
+Other(n) == IF n = Me THEN "me2" ELSE Me
+FromCur(s, r) == s.room = RoomOf(r) /\ s.nick = nk.cur[r]
+FromWant(s, c) == nk.want[c] # None /\ s.room = RoomOf(room[c]) /\ s.nick = nk.want[c]
+(* the channel whose (held) occupant address stanza s comes from (None: nobody's) *)
+Ch(s) == IF \E r \in Rooms : FromCur(s, r) THEN CHOOSE r \in Rooms : FromCur(s, r) ELSE None
 Pending(c) == st[c] = "pending"
-PendingOn(r) == {c \in CallSet : Pending(c) /\ room[c] = r}
+PendingOn(r) == {c \in CallSet : Pending(c) /\ room[c] = r /\ kind[c] \notin AuxKinds}
 
+(* a renick call may return success after the self-presence of either address (the one it holds: the room  *)
+(* ignored the change; the one it asked for: granted); it is OWED a return only by the one it asked for   *)
 PositiveK(s, k, r) ==
-  \/ k \in JoinKinds /\ s.ty = "av" /\ s.room = r /\ s.nick = Me
-  \/ k = "leave" /\ s.ty = "un" /\ s.room = r /\ s.nick = Me
+  \/ k \in JoinKinds /\ s.ty = "av" /\ FromCur(s, r)
+  \/ k = "renick" /\ s.ty = "av" /\ s.room = RoomOf(r) /\ s.nick = Other(nk.cur[r])
+  \/ k = "leave" /\ s.ty = "un" /\ FromCur(s, r)
 Positive(s, c) == PositiveK(s, kind[c], room[c])
 ErrFor(s, c) == s.ty = "er" /\ s.call = c
-Decisive(s, c) == Positive(s, c) \/ ErrFor(s, c)
-SelfUn(s, r) == s.ty = "un" /\ s.room = r /\ s.nick = Me
+Decisive(s, c) == (IF kind[c] = "renick" THEN s.ty = "av" /\ FromWant(s, c) ELSE Positive(s, c)) \/ ErrFor(s, c)
+SelfUn(s, r) == s.ty = "un" /\ FromCur(s, r)
 
 -----------------------------------------------------------------------------
 (* OBSERVER *)
 
 OCall(c, k, r) ==
   /\ st[c] = "idle" /\ \A d \in CallSet : Idx(d) < Idx(c) => st[d] # "idle"
-  /\ r \in Rooms /\ PendingOn(r) = {}
-  /\ (k = "join") = (r \notin has)
+  /\ r \in Rooms
+  /\ (IF k \in AuxKinds THEN r \in has                   \* the application holds the Channel
+      ELSE PendingOn(r) = {} /\ (k = "join") = (r \notin has))
+  /\ nk' = IF k = "renick"
+           THEN [nk EXCEPT !.want[c] = Other(nk.cur[r]), !.ren = @ \cup {r},
+                           \* (self-presences the room sent before the call and that are not processed yet)
+                           !.seen[c] = (IF \E i \in 1..Len(inflight) : inflight[i].ty = "av" /\ FromCur(inflight[i], r) THEN {"cur"} ELSE {})
+                                       \cup (IF \E i \in 1..Len(inflight) : inflight[i].ty = "av" /\ inflight[i].room = RoomOf(r)
+                                                                              /\ inflight[i].nick = Other(nk.cur[r]) THEN {"want"} ELSE {})]
+           ELSE nk
   /\ st' = [st EXCEPT ![c] = "pending"] /\ kind' = [kind EXCEPT ![c] = k] /\ room' = [room EXCEPT ![c] = r]
   /\ has' = has \cup {r}
   /\ memAt' = [memAt EXCEPT ![c] = mem[r]]
@@ -123,35 +164,50 @@ OCall(c, k, r) ==
                                  [] k = "leave" /\ @ = "in" -> "leaving"
                                  [] OTHER -> @]
   /\ cand' = [cand EXCEPT ![c] = IF \E i \in 1..Len(inflight) : PositiveK(inflight[i], k, r) THEN {"ok"} ELSE {}]
-  /\ dirty' = IF k \in JoinKinds /\ \E i \in 1..Len(inflight) : SelfUn(inflight[i], r) THEN dirty \cup {c} ELSE dirty
+  /\ dirty' = IF (k \in JoinKinds /\ (\E i \in 1..Len(inflight) : SelfUn(inflight[i], r)))
+                \/ (k = "renick" /\ (\E i \in 1..Len(inflight) : inflight[i].ty = "un" /\ inflight[i].room = RoomOf(r) /\ inflight[i].nick = Other(nk.cur[r])))
+             THEN dirty \cup {c} ELSE dirty
   /\ UNCHANGED <<res, cancelled, wire, owed, inflight, cbs, ups, viol>>
 
 OWire(c) ==
   /\ st[c] # "idle" /\ wire' = wire \cup {c}
-  /\ UNCHANGED <<kind, room, st, res, cancelled, cand, owed, dirty, memAt, mem, has, inflight, cbs, ups, viol>>
+  /\ UNCHANGED <<kind, room, st, res, cancelled, cand, owed, dirty, memAt, mem, has, inflight, cbs, ups, viol, nk>>
 
 OCancel(c) ==
   /\ st[c] # "idle" /\ cancelled' = cancelled \cup {c}
-  /\ UNCHANGED <<kind, room, st, res, wire, cand, owed, dirty, memAt, mem, has, inflight, cbs, ups, viol>>
+  /\ UNCHANGED <<kind, room, st, res, wire, cand, owed, dirty, memAt, mem, has, inflight, cbs, ups, viol, nk>>
 
-(* the room begins to send stanza s = [ty, room, nick, call, n, lay, pw, shape]; part: only a first  *)
-(* piece of its bytes is delivered for now (the remainder follows with ORest)                *)
+(* the room begins to send stanza s = [ty, room, nick, call, n, lay, pw, shape, codes, item]; part:   *)
+(* only a first piece of its bytes is delivered for now (the remainder follows with ORest).          *)
+(* PAYLOAD CONTENT of a presence (s.codes, s.item): the muc#user element of an (un)available presence *)
+(* carries status codes - s.codes, in document order: 110 self, 100 / 170 room configuration, 201     *)
+(* created, 210 nick modified, 301 banned, 303 new nickname, 307 kicked, 321 / 322 / 332 / 333        *)
+(* removed - and an item whose attributes and children vary (s.item: affiliation / role, nick, real   *)
+(* jid, actor and reason, a sibling <destroy/>, no item at all, item before or after the codes).      *)
+(* The property speaks of "the occupant's unavailable presence" and "the self-presence for the        *)
+(* occupant address": WHICH presence it is follows from its type and its sender address alone, so no  *)
+(* clause of the observer reads codes or item - they are carried along for the deviations of the      *)
+(* mechanism (code that does look at them) and for the reports.                                       *)
 OSend(s, part) ==
   /\ inflight' = Append(inflight, [ty |-> s.ty, room |-> s.room, nick |-> s.nick, call |-> s.call, n |-> s.n,
-                                   lay |-> s.lay, pw |-> s.pw, shape |-> s.shape, part |-> part,
+                                   lay |-> s.lay, pw |-> s.pw, shape |-> s.shape, codes |-> s.codes, item |-> s.item, part |-> part,
                                    after |-> {c \in wire : Pending(c) /\ c \notin cancelled}])
   /\ cand' = [c \in CallSet |-> IF Pending(c)
                                 THEN cand[c] \cup (IF Positive(s, c) THEN {"ok"} ELSE {})
                                              \cup (IF ErrFor(s, c) THEN {IF Malformed(s) THEN AnyErr ELSE CondOf[c]} ELSE {})
                                 ELSE cand[c]]
   /\ dirty' = dirty \cup {c \in CallSet : Pending(c) /\ kind[c] \in JoinKinds /\ SelfUn(s, room[c])}
+                   \cup {c \in CallSet : Pending(c) /\ s.ty = "un" /\ FromWant(s, c)}     \* (granted and vacated again during the call)
+  /\ nk' = [nk EXCEPT !.seen = [c \in CallSet |-> IF Pending(c) /\ kind[c] = "renick" /\ s.ty = "av"
+                                                 THEN @[c] \cup (IF FromCur(s, room[c]) THEN {"cur"} ELSE {}) \cup (IF FromWant(s, c) THEN {"want"} ELSE {})
+                                                 ELSE @[c]]]
   /\ UNCHANGED <<kind, room, st, res, cancelled, wire, owed, memAt, mem, has, cbs, ups, viol>>
 
 (* the remainder of the partly delivered stanza arrives *)
 Partial == \E i \in 1..Len(inflight) : inflight[i].part
 ORest ==
   /\ inflight' = [i \in 1..Len(inflight) |-> [inflight[i] EXCEPT !.part = FALSE]]
-  /\ UNCHANGED <<kind, room, st, res, cancelled, wire, cand, owed, dirty, memAt, mem, has, cbs, ups, viol>>
+  /\ UNCHANGED <<kind, room, st, res, cancelled, wire, cand, owed, dirty, memAt, mem, has, cbs, ups, viol, nk>>
 
 (* INVITATIONS.  An invitation message (ty = "inv") has the children lay (document order):   *)
 (* "b" body, "t" thread, "u" the muc#user payload with n <invite/> elements (each with its   *)
@@ -188,26 +244,35 @@ OHandled(d) ==
   /\ LET h == Head(inflight) IN
      /\ HandledMatches(h, d)
      /\ inflight' = Tail(inflight)
-     /\ mem' = IF h.room \in Rooms /\ SelfUn(h, h.room) /\ mem[h.room] \in {"in", "leaving", "unk"}
-               THEN [mem EXCEPT ![h.room] = "out"] ELSE mem
+     \* the unavailable presence of the address the channel holds: out (while a join of the channel is pending: not in
+     \* until that call has returned); of an address the room never vacated while granting another: undetermined
+     /\ mem' = [r \in Rooms |->
+                 CASE h.ty = "un" /\ FromCur(h, r) /\ mem[r] \in {"in", "leaving", "unk"} ->
+                        IF \E c \in PendingOn(r) : kind[c] \in JoinKinds THEN "joining" ELSE "out"
+                   [] h.ty = "un" /\ h.room = RoomOf(r) /\ h.nick = nk.ghost[r] /\ mem[r] \in {"in", "leaving"} -> "unk"
+                   [] h.ty = "un" /\ mem[r] \in {"in", "leaving"} /\ (\E c \in PendingOn(r) : FromWant(h, c) /\ "want" \in nk.seen[c]) -> "unk"
+                   [] OTHER -> mem[r]]
+     /\ nk' = [nk EXCEPT !.ghost = [r \in Rooms |-> IF h.ty = "un" /\ h.room = RoomOf(r) /\ h.nick = @[r] THEN None ELSE @[r]]]
      /\ owed' = owed \cup {c \in h.after : /\ Pending(c) /\ c \notin dirty
                                              /\ Decisive(h, c)
                                              /\ (kind[c] = "leave" => memAt[c] = "in")}
      /\ viol' = viol \cup (IF SameBag(MedNorm(OfKind(cbs, "med")), Mediated(h)) THEN {} ELSE {"C18_InviteExactlyOnce"})
                      \cup (IF SameBag(OfKind(cbs, "dir"), Direct(h)) /\ Len(OfKind(cbs, "med")) + Len(OfKind(cbs, "dir")) = Len(cbs)
                            THEN {} ELSE {"C18_DirectInviteExactlyOnce"})
-                     \cup (IF h.room \notin has /\ h.ty \in {"av", "un"} /\ ups > 0 THEN {"C18_ForeignIgnored"} ELSE {})
+                     \cup (IF h.room \notin {RoomOf(r) : r \in has} /\ h.ty \in {"av", "un"} /\ ups > 0 THEN {"C18_ForeignIgnored"} ELSE {})
   /\ cbs' = <<>> /\ ups' = 0
   /\ UNCHANGED <<kind, room, st, res, cancelled, wire, cand, dirty, memAt, has>>
 
 RetGood(c, o, cond) ==
-  CASE o = "ok" -> "ok" \in cand[c]
+  CASE kind[c] \in AuxKinds -> o \in {"ok", "err", "other"} \/ (o = "ctx" /\ c \in cancelled)   \* (whether the message could be sent is the session's business)
+    [] o = "ok" -> "ok" \in cand[c]
     [] o = "err" -> cond \in cand[c] \/ AnyErr \in cand[c]
     [] o = "other" -> AnyErr \in cand[c]          \* an error that is no stanza error: only for a malformed error reply
     [] o = "ctx" -> c \in cancelled
     [] OTHER -> FALSE
 RetClause(c, o) ==
-  CASE o = "ok" /\ kind[c] \in JoinKinds -> "C18_JoinOK"
+  CASE kind[c] \in AuxKinds -> "C18_CtxErr"
+    [] o = "ok" /\ kind[c] \in JoinKinds -> "C18_JoinOK"
     [] o = "ok" -> "C18_LeaveOK"
     [] o \in {"err", "other"} -> "C18_JoinErr"
     [] o = "ctx" -> "C18_CtxErr"
@@ -223,26 +288,33 @@ ORet(c, o, cond) ==
                  [] kind[c] = "leave" /\ @ = "leaving" /\ o = "ctx" -> "in"
                  [] kind[c] = "leave" /\ @ = "leaving" -> "unk"
                  [] OTHER -> @]
+  /\ nk' = IF kind[c] # "renick" THEN nk
+           ELSE LET r == room[c] sc == "cur" \in nk.seen[c] sw == "want" \in nk.seen[c] IN
+                CASE o = "ok" /\ sw /\ ~sc -> [nk EXCEPT !.cur[r] = nk.want[c], !.ghost[r] = IF c \in dirty THEN None ELSE nk.cur[r]]
+                  [] o = "ok" /\ sw /\ sc -> [nk EXCEPT !.amb = @ \cup {r}]
+                  [] o # "ok" /\ sw -> [nk EXCEPT !.amb = @ \cup {r}]       \* granted although the call had given up
+                  [] OTHER -> nk
   /\ UNCHANGED <<kind, room, cancelled, wire, cand, owed, dirty, memAt, has, inflight, cbs, ups>>
 
 (* Channel.Joined() sampled between steps *)
 JoinedMay(r) ==
-  CASE mem[r] \in {"in", "leaving"} -> {TRUE}
+  CASE r \in nk.amb -> BOOLEAN
+    [] mem[r] \in {"in", "leaving"} -> {TRUE}
     [] mem[r] = "out" -> {FALSE}
     [] mem[r] = "joining" -> IF \E c \in PendingOn(r) : "ok" \in cand[c] THEN BOOLEAN ELSE {FALSE}
     [] OTHER -> BOOLEAN
 OObs(r, j, me, addr) ==
   /\ r \in has
   /\ viol' = viol \cup (IF j \in JoinedMay(r) THEN {} ELSE {"C18_JoinedIffIn"})
-                  \cup (IF me = Me /\ addr = r THEN {} ELSE {"C18_Me"})
-  /\ UNCHANGED <<kind, room, st, res, cancelled, wire, cand, owed, dirty, memAt, mem, has, inflight, cbs, ups>>
+                  \cup (IF (me = NickOf(r) \/ r \in nk.ren) /\ addr = RoomOf(r) THEN {} ELSE {"C18_Me"})
+  /\ UNCHANGED <<kind, room, st, res, cancelled, wire, cand, owed, dirty, memAt, mem, has, inflight, cbs, ups, nk>>
 
 OInviteCb(cb) ==
   /\ cbs' = Append(cbs, cb)
-  /\ UNCHANGED <<kind, room, st, res, cancelled, wire, cand, owed, dirty, memAt, mem, has, inflight, ups, viol>>
+  /\ UNCHANGED <<kind, room, st, res, cancelled, wire, cand, owed, dirty, memAt, mem, has, inflight, ups, viol, nk>>
 OUserPres ==
   /\ ups' = ups + 1
-  /\ UNCHANGED <<kind, room, st, res, cancelled, wire, cand, owed, dirty, memAt, mem, has, inflight, cbs, viol>>
+  /\ UNCHANGED <<kind, room, st, res, cancelled, wire, cand, owed, dirty, memAt, mem, has, inflight, cbs, viol, nk>>
 
 (* Nothing can move any more without the environment (every goroutine is blocked): a call *)
 (* must not be found waiting when its context has ended or its answer has been processed, *)
@@ -253,14 +325,16 @@ StallClauses ==
   {"C06_CallReturns" : c \in {c \in CallSet : Pending(c) /\ c \in cancelled}}
   \cup {"C18_JoinCompletes" : c \in {c \in CallSet : Pending(c) /\ c \in owed /\ kind[c] \in JoinKinds}}
   \cup {"C18_LeaveReturns" : c \in {c \in CallSet : Pending(c) /\ c \in owed /\ kind[c] = "leave"}}
-  \cup {"C18_RequestSent" : c \in {c \in CallSet : Pending(c) /\ c \notin cancelled /\ c \notin wire}}
+  \cup {"C18_RequestSent" : c \in {c \in CallSet : Pending(c) /\ c \notin cancelled /\ c \notin wire /\ kind[c] \notin AuxKinds}}
+  \* Subject / Invite wait for nothing the room could send: they are never found blocked
+  \cup {"C18_AuxReturns" : c \in {c \in CallSet : Pending(c) /\ kind[c] \in AuxKinds}}
   \* the serve loop: a stanza the room has sent completely is processed (whoever was handed a reply has released it)
   \cup {"C06_NoStall" : i \in 1..Len(inflight)}
 (* (while the room is in the middle of sending a stanza the environment still owes its    *)
 (* remainder: not a point at which a stall can be judged)                                   *)
 OQuiet ==
   /\ viol' = viol \cup (IF Partial THEN {} ELSE StallClauses)
-  /\ UNCHANGED <<kind, room, st, res, cancelled, wire, cand, owed, dirty, memAt, mem, has, inflight, cbs, ups>>
+  /\ UNCHANGED <<kind, room, st, res, cancelled, wire, cand, owed, dirty, memAt, mem, has, inflight, cbs, ups, nk>>
 
 (* a run may end only when every call has returned and every stanza has been processed *)
 Quiescent == (\A c \in CallSet : ~Pending(c)) /\ inflight = <<>>
@@ -269,16 +343,26 @@ Quiescent == (\A c \in CallSet : ~Pending(c)) /\ inflight = <<>>
 (* MECHANISM (the repaired algorithm; Dev re-introduces the defects of the pinned code) *)
 
 MCall(c, k, r) ==
-  /\ CASE k = "join" ->
+  /\ CASE k \in AuxKinds ->
+            \* one message is written; deviation AuxWaitsForLeave: the call needs something a pending Leave holds
+            /\ pc' = [pc EXCEPT ![c] = IF "AuxWaitsForLeave" \in Dev THEN "aux" ELSE "ok"]
+            /\ UNCHANGED <<managed, jflag, jbuf, depart>>
+       [] k = "join" ->
             /\ managed' = managed \cup {r} /\ jflag' = [jflag EXCEPT ![r] = FALSE]
             /\ jbuf' = [jbuf EXCEPT ![r] = <<>>] /\ depart' = [depart EXCEPT ![r] = 0]
             /\ pc' = [pc EXCEPT ![c] = "enq"]
-       [] k = "rejoin" ->
+       [] k \in {"rejoin", "renick"} ->
             /\ managed' = IF "NoReRegister" \in Dev THEN managed ELSE managed \cup {r}
             /\ pc' = [pc EXCEPT ![c] = "enq"] /\ UNCHANGED <<jflag, jbuf, depart>>
        [] OTHER ->
             /\ depart' = IF "DepartLost" \in Dev THEN depart ELSE [depart EXCEPT ![r] = 0]
             /\ pc' = [pc EXCEPT ![c] = "pre"] /\ UNCHANGED <<managed, jflag, jbuf>>
+  \* the Nick option: the address asked for is registered NEXT TO the one the channel holds (which stays the held one
+  \* until the room grants the other).  Deviation RenickForgetsOld: the old address is forgotten when the request is made.
+  /\ mk' = IF k # "renick" THEN mk
+           ELSE IF "RenickForgetsOld" \in Dev
+                THEN [mk EXCEPT !.reg[r] = {Other(mk.caddr[r])}, !.caddr[r] = Other(mk.caddr[r])]
+                ELSE [mk EXCEPT !.reg[r] = @ \cup {Other(mk.caddr[r])}]
   /\ UNCHANGED <<sent, hold>>
 
 Call(c, k, r) == OCall(c, k, r) /\ MCall(c, k, r) /\ nenv' = nenv + 1
@@ -286,7 +370,7 @@ Cancel(c) == OCancel(c) /\ Pending(c) /\ c \notin cancelled /\ nenv' = nenv + 1 
 (* the room sends s in one piece, or (Splits) a first piece only and the remainder later; *)
 (* its byte stream is sequential: nothing else is sent before the remainder               *)
 Send(s, part) ==
-  /\ (s.ty = "er" => st[s.call] # "idle" /\ \A i \in 1..Len(inflight) : ~ErrFor(inflight[i], s.call))
+  /\ (s.ty = "er" => st[s.call] # "idle" /\ kind[s.call] \notin AuxKinds /\ \A i \in 1..Len(inflight) : ~ErrFor(inflight[i], s.call))
   /\ Len(inflight) < MaxFlight /\ ~Partial
   /\ OSend(s, part) /\ nenv' = nenv + 1 /\ UNCHANGED mvars
 Rest == Partial /\ ORest /\ nenv' = nenv + 1 /\ UNCHANGED mvars
@@ -301,25 +385,30 @@ Enq(c) ==
      \/ /\ ("StaleBlocks" \in Dev => jbuf[r] = <<>>)
         /\ jbuf' = [jbuf EXCEPT ![r] = <<c>>] /\ pc' = [pc EXCEPT ![c] = "wait"]
      \/ /\ c \in cancelled /\ pc' = [pc EXCEPT ![c] = "ctx"] /\ UNCHANGED jbuf
-  /\ UNCHANGED <<ovars, managed, depart, jflag, sent, hold>>
+  /\ UNCHANGED <<ovars, managed, depart, jflag, sent, hold, mk>>
 
 (* the sender goroutine of Join/Leave writes the request *)
 SendReq(c) ==
   /\ pc[c] \notin {"idle", "enq"} /\ c \notin sent
-  /\ sent' = sent \cup {c} /\ OWire(c) /\ UNCHANGED <<nenv, managed, jbuf, depart, jflag, pc, hold>>
+  /\ sent' = sent \cup {c} /\ OWire(c) /\ UNCHANGED <<nenv, managed, jbuf, depart, jflag, pc, hold, mk>>
+
+AuxGo(c) ==
+  /\ pc[c] = "aux" /\ ~\E d \in PendingOn(room[c]) : kind[d] = "leave"
+  /\ pc' = [pc EXCEPT ![c] = "ok"]
+  /\ UNCHANGED <<ovars, managed, jbuf, depart, jflag, sent, hold, mk>>
 
 LeaveSelect(c) ==
   /\ pc[c] = "pre" /\ pc' = [pc EXCEPT ![c] = "wait"]
-  /\ UNCHANGED <<ovars, managed, jbuf, depart, jflag, sent, hold>>
+  /\ UNCHANGED <<ovars, managed, jbuf, depart, jflag, sent, hold, mk>>
 
 CtxWake(c) ==
   /\ pc[c] = "wait" /\ c \in cancelled /\ pc' = [pc EXCEPT ![c] = "ctx"]
-  /\ UNCHANGED <<ovars, managed, jbuf, depart, jflag, sent, hold>>
+  /\ UNCHANGED <<ovars, managed, jbuf, depart, jflag, sent, hold, mk>>
 
 DepartWake(c) ==
   /\ pc[c] = "wait" /\ kind[c] = "leave" /\ depart[room[c]] = 1
   /\ pc' = [pc EXCEPT ![c] = "ok"] /\ depart' = [depart EXCEPT ![room[c]] = 0]
-  /\ UNCHANGED <<ovars, managed, jbuf, jflag, sent, hold>>
+  /\ UNCHANGED <<ovars, managed, jbuf, jflag, sent, hold, mk>>
 
 Ret(c) ==
   /\ pc[c] \in {"ok", "err", "ctx", "other"}
@@ -328,38 +417,64 @@ Ret(c) ==
   /\ IF kind[c] = "leave" /\ pc[c] = "err"       \* the room refused the leave: not an occupant (pinned by TestPartError)
      THEN managed' = managed \ {room[c]} /\ jflag' = [jflag EXCEPT ![room[c]] = FALSE]
      ELSE UNCHANGED <<managed, jflag>>
+  \* a renick call that did not succeed: the address asked for is not the channel's (deviation RenickStale: it stays registered)
+  /\ mk' = IF kind[c] = "renick" /\ pc[c] # "ok" /\ "RenickStale" \notin Dev /\ "RenickForgetsOld" \notin Dev
+           THEN [mk EXCEPT !.reg[room[c]] = {mk.caddr[room[c]]}] ELSE mk
   /\ UNCHANGED <<nenv, jbuf, depart, sent, hold>>
 
 Desc(h) == [ty |-> h.ty, room |-> h.room, nick |-> h.nick, call |-> h.call]
 
-Matched(h) == h.room \in managed /\ (h.nick = Me \/ "BareLookup" \in Dev)
+(* the channel the presence handler finds for presence h.  Deviations: BareLookup (the table is keyed by the *)
+(* room, any occupant's presence is the channel's), OwnNickAny (a presence of ANY of the user's own          *)
+(* nicknames in the room is taken for the channel's)                                                         *)
+(* (the table: every nickname registered for a channel leads to it) *)
+RegCh(h) == IF \E r \in Rooms : h.room = RoomOf(r) /\ h.nick \in mk.reg[r]
+            THEN CHOOSE r \in Rooms : h.room = RoomOf(r) /\ h.nick \in mk.reg[r] ELSE None
+MCh(h) == CASE "BareLookup" \in Dev -> h.room
+            [] "OwnNickAny" \in Dev /\ h.nick \in {Me, "me2"} -> h.room
+            [] OTHER -> RegCh(h)
+Matched(h) == MCh(h) \in managed
+(* the muc#user payload of presence h carries status code k *)
+HasCode(h, k) == \E i \in 1..Len(h.codes) : h.codes[i] = k
 
+(* item variants (s.item) of an unavailable presence whose item does not say role none (some servers *)
+(* omit the item or repeat the last role)                                                            *)
+RoleKept == {"noitem", "rolekept"}
 (* HandlePresence, available: hand the address to a pending join, skipping stale entries *)
 HandleAv ==
   /\ HeadWhole /\ Head(inflight).ty = "av"
-  /\ LET h == Head(inflight) r == h.room IN
-     IF r \in Rooms /\ Matched(h) /\ jbuf[r] # <<>>
+  /\ LET h == Head(inflight) r == MCh(h) IN
+     IF r \in Rooms /\ Matched(h) /\ jbuf[r] # <<>> /\ ("SelfNeeds110" \in Dev => HasCode(h, 110))
      THEN LET e == Head(jbuf[r]) IN
           \/ /\ pc[e] = "wait"                          \* rendezvous with the join's select
              /\ pc' = [pc EXCEPT ![e] = "ok"] /\ jflag' = [jflag EXCEPT ![r] = TRUE]
              /\ jbuf' = [jbuf EXCEPT ![r] = <<>>]
+             \* the address of this presence is the one the channel holds from now on, and the only one registered
+             /\ mk' = IF h.nick \in {Me, "me2"} /\ "BareLookup" \notin Dev /\ "OwnNickAny" \notin Dev
+                      THEN [mk EXCEPT !.caddr[r] = h.nick, !.reg[r] = IF "RenickStale" \in Dev THEN @ ELSE {h.nick}] ELSE mk
           \/ /\ pc[e] # "wait" \/ e \in cancelled      \* its context is done: skip the entry
-             /\ jbuf' = [jbuf EXCEPT ![r] = <<>>] /\ UNCHANGED <<pc, jflag>>
-     ELSE UNCHANGED <<pc, jflag, jbuf>>
+             /\ jbuf' = [jbuf EXCEPT ![r] = <<>>] /\ UNCHANGED <<pc, jflag, mk>>
+     ELSE UNCHANGED <<pc, jflag, jbuf, mk>>
   /\ OHandled(Desc(Head(inflight)))
   /\ UNCHANGED <<nenv, managed, depart, sent, hold>>
 
-(* HandlePresence, unavailable: forget the room and signal a pending leave *)
+(* HandlePresence, unavailable: forget the room and signal a pending leave - whatever the payload   *)
+(* says about WHY the occupant address is vacated.  Deviations that read the payload: NewNickStays  *)
+(* (status 303 "new nickname": the presence is passed to the application and not treated as the     *)
+(* departure - the channel is not re-keyed either, so it claims membership of a vacated address for *)
+(* good), UnNeedsRoleNone (only an item with role none counts as a departure).                      *)
 HandleUn ==
   /\ HeadWhole /\ Head(inflight).ty = "un"
-  /\ LET h == Head(inflight) r == h.room IN
-     IF r \in Rooms /\ Matched(h)
+  /\ LET h == Head(inflight) r == MCh(h) IN
+     IF r \in Rooms /\ Matched(h) /\ ~("NewNickStays" \in Dev /\ HasCode(h, 303))
+                    /\ (h.nick = mk.caddr[r] \/ "RenickStale" \in Dev \/ "BareLookup" \in Dev \/ "OwnNickAny" \in Dev)   \* the address the channel HOLDS
+                    /\ ~("UnNeedsRoleNone" \in Dev /\ h.item \in RoleKept)
      THEN /\ managed' = managed \ {r} /\ jflag' = [jflag EXCEPT ![r] = FALSE]
           /\ depart' = IF "DepartLost" \in Dev /\ ~\E c \in PendingOn(r) : kind[c] = "leave" /\ pc[c] = "wait"
                        THEN depart ELSE [depart EXCEPT ![r] = 1]
      ELSE UNCHANGED <<managed, jflag, depart>>
   /\ OHandled(Desc(Head(inflight)))
-  /\ UNCHANGED <<nenv, jbuf, pc, sent, hold>>
+  /\ UNCHANGED <<nenv, jbuf, pc, sent, hold, mk>>
 
 (* An error presence.  The session looks up its id as soon as it has read the start tag: if  *)
 (* the sender goroutine of that call is still waiting for a reply, the reply is handed to it  *)
@@ -378,7 +493,7 @@ ErHandOff ==
   /\ inflight # <<>> /\ Head(inflight).ty = "er" /\ hold = None
   /\ SenderWaits(Head(inflight).call)
   /\ hold' = Head(inflight).call
-  /\ UNCHANGED <<ovars, managed, jbuf, depart, jflag, pc, sent>>
+  /\ UNCHANGED <<ovars, managed, jbuf, depart, jflag, pc, sent, mk>>
 ErDeliver ==
   /\ HeadWhole /\ hold \in CallSet /\ pc[hold] = "wait"
   /\ IF Malformed(Head(inflight)) /\ "ErrReplyLeaked" \in Dev
@@ -388,13 +503,13 @@ ErDeliver ==
           /\ \E o \in (IF Malformed(Head(inflight)) THEN {"err", "other"} ELSE {"err"}) : pc' = [pc EXCEPT ![hold] = o]
           /\ hold' = None
           /\ OHandled(Desc(Head(inflight))) /\ UNCHANGED nenv
-  /\ UNCHANGED <<managed, jbuf, depart, jflag, sent>>
+  /\ UNCHANGED <<managed, jbuf, depart, jflag, sent, mk>>
 ErDrop ==
   /\ HeadWhole /\ hold \in CallSet /\ (hold \in cancelled \/ pc[hold] \notin {"pre", "wait"})
   /\ "ErrHandoverBlocks" \notin Dev
   /\ hold' = None
   /\ OHandled(Desc(Head(inflight)))
-  /\ UNCHANGED <<nenv, managed, jbuf, depart, jflag, pc, sent>>
+  /\ UNCHANGED <<nenv, managed, jbuf, depart, jflag, pc, sent, mk>>
 ErToMux ==
   /\ HeadWhole /\ Head(inflight).ty = "er" /\ hold = None
   /\ ~SenderWaits(Head(inflight).call) \/ Head(inflight).call \in cancelled
@@ -425,21 +540,20 @@ HandleOther ==
   /\ OHandled(Desc(Head(inflight))) /\ UNCHANGED <<nenv, mvars>>
 
 MObs(r) ==
-  /\ OObs(r, IF "JoinedBare" \in Dev THEN FALSE ELSE jflag[r], Me, r)
+  /\ OObs(r, IF "JoinedBare" \in Dev THEN FALSE ELSE jflag[r], NickOf(r), RoomOf(r))
   /\ UNCHANGED <<nenv, mvars>>
 
 LibNext ==
-  \/ \E c \in CallSet : Enq(c) \/ SendReq(c) \/ LeaveSelect(c) \/ CtxWake(c) \/ DepartWake(c) \/ Ret(c)
+  \/ \E c \in CallSet : Enq(c) \/ SendReq(c) \/ LeaveSelect(c) \/ CtxWake(c) \/ DepartWake(c) \/ AuxGo(c) \/ Ret(c)
   \/ HandleAv \/ HandleUn \/ HandleEr \/ InviteCb \/ HandleOther
 
 Next ==
   \/ /\ nenv < MaxEnv
-     /\ \/ \E c \in CallSet, k \in {"join", "rejoin", "leave"}, r \in Rooms : Call(c, k, r)
+     /\ \/ \E c \in CallSet, k \in {"join", "rejoin", "leave"} \cup Aux, r \in Rooms : Call(c, k, r)
         \/ \E c \in CallSet : Cancel(c)
         \/ \E s \in Alphabet : Send(s, FALSE) \/ (Splits /\ Send(s, TRUE))
         \/ Rest
-  \/ \E c \in CallSet : Enq(c) \/ SendReq(c) \/ LeaveSelect(c) \/ CtxWake(c) \/ DepartWake(c) \/ Ret(c)
-  \/ HandleAv \/ HandleUn \/ HandleEr \/ InviteCb \/ HandleOther
+  \/ LibNext
   \/ \E r \in Rooms : MObs(r)
 
 Spec == Init /\ [][Next]_vars
